@@ -93,6 +93,11 @@ def rule_r02d(ctx, P, r):
                         lo_ok, okub = lo_ok or PF.ge0(I_), okub or PF.lt(I_, K_)
                     else:
                         lo_ok, okub = lo_ok or PF.ge0(I_ - K_), okub or PF.lt(I_, K_ + M_)
+                if not (lo_ok and okub):
+                    # validated in an earlier pass over the same list: a loop that reads the index of every fragment, leaves only at
+                    # the end of the list or with an error, and goes on to the next fragment only when the bounds hold
+                    lo2, ub2 = earlier_pass_bounds(P, f, C, c, at_bb, ub)
+                    lo_ok, okub = lo_ok or lo2, okub or ub2
                 inst = f'{fname}: header index as {how} (line {i.line})'
                 if lo_ok and okub:
                     r.ok(inst, func=f.name, loc=i.loc, facts={'facts': F.mentions(e)})
@@ -186,6 +191,51 @@ def rule_r02d(ctx, P, r):
         r.fail('get_fragment_partition: num_missing > m => negative', func=f.name, sig='missing-count check absent', loc=rets[0].loc,
                msg='get_fragment_partition never compares the number of missing fragments with m: back ends that do not report "too many erasures" '
                    '(the RS adapter drops its coder\'s result) then return success with zero-filled fragments')
+
+def earlier_pass_bounds(P, f, C, call2, use_bb, ub):
+    """(lower bound holds, upper bound holds) for the index read by call2, established by an earlier validation pass"""
+    from ..poly import PolyCtx, Poly
+    from ..loops import loops_of, innermost
+    from ..guards import PolyFacts, dominating_edges
+    from ..retval import all_negative
+    pc = PolyCtx(P, f, C)
+    LS = loops_of(P, f, pc)
+    L2 = innermost(LS, call2.bb)
+    if L2 is None:
+        return False, False
+    norm = lambda e: re.sub(r'phi%[\w.]+', 'phi', e)
+    K_, M_ = Poly.atom('arg0'), Poly.atom('arg1')
+    for c1 in [i for i in f.insts() if i.op == 'call' and i.callee == call2.callee and i is not call2 and i.res]:
+        L1 = innermost(LS, c1.bb)
+        if L1 is None or L1.header is L2.header or norm(C.val(c1.ops[0])) != norm(C.val(call2.ops[0])):
+            continue
+        # same number of iterations, left only at the end or with an error, and before the second pass starts
+        g1 = [g for g in L1.guards() if g.block is L1.header]
+        g2 = [g for g in L2.guards() if g.block is L2.header]
+        if len(g1) != 1 or len(g2) != 1 or L1.count_for(g1[0])[0] is None or L1.count_for(g1[0])[0] != L2.count_for(g2[0])[0]:
+            continue
+        if any((xb, xs) != g1[0].exit_edge and not all_negative(returns_via_edge(f, xb, xs)) for xb, xs in L1.exits):
+            continue
+        if g1[0].exit_edge not in dominating_edges(f, L2.header):
+            continue
+        I1 = pc.val(c1.res)
+        lo = up = True
+        for latch in L1.latches:
+            PF = PolyFacts(P, f, latch, pc=pc)
+            if ub == 'k':
+                lo = lo and PF.ge0(I1)          # the upper bound k is the second pass's own data / parity split
+            else:
+                lo, up = lo and PF.ge0(I1), up and PF.lt(I1, K_ + M_)
+        if lo and up:
+            # the first pass bounds the index by 0 <= idx < k + m; the second pass must still separate data from parity itself
+            from ..guards import Facts
+            F2 = Facts(P, f, use_bb)
+            e2 = F2.norm(call2.res)
+            if ub == 'k':
+                ups = F2.upper_bound_sym(e2)
+                return True, any(strict and b == 'arg0' for b, strict, sg in ups)
+            return any(p_ == 'sge' and a_ == e2 and b_ == 'arg0' for p_, a_, b_ in F2.facts), True
+    return False, False
 
 def run(ctx):
     P = ctx.program()
